@@ -589,6 +589,47 @@ theorem openlist_length_distinct (cfg : OpenListCfg) (votes : Votes) (n : Nat) (
         · intro c hc
           exact hJs c (mem_sortBy.mp (List.mem_of_mem_take (mem_sortBy.mp hc)))
 
+/-- **openlist_length_min.**  The same for EVERY seat count, also one larger than the list: the evaluator answers
+    with exactly `min(n, |list|)` distinct list members (a party that won more seats than it has list members
+    seats its whole list, each member once). -/
+theorem openlist_length_min (cfg : OpenListCfg) (votes : Votes) (n : Nat) (clist : List Cand)
+    (hwf : WF votes) (hl : clist.Nodup) (hsub : ∀ c ∈ keys votes, c ∈ clist) :
+    ∃ r, thresholdOpenList cfg votes n clist = .ok r ∧ r.length = min n clist.length ∧ r.Nodup ∧ ∀ c ∈ r, c ∈ clist := by
+  by_cases hn : n ≤ clist.length
+  · obtain ⟨r, hr, hlen, hnd, hs⟩ := openlist_length_distinct cfg votes n clist hwf hl hsub hn
+    exact ⟨r, hr, by rw [hlen, Nat.min_eq_left hn], hnd, hs⟩
+  · have hn' : clist.length < n := by omega
+    cases hthr : jumpThreshold cfg (sumVals votes) n with
+    | none =>
+      refine ⟨_, openlist_no_threshold cfg votes n clist hthr, ?_, hl.sublist (List.take_sublist _ _), ?_⟩
+      · rw [List.length_take]
+      · intro c hc; exact List.mem_of_mem_take hc
+    | some thr =>
+      have hJn := jumpers_nodup cfg.acceptEqual thr votes hwf
+      have hJs : ∀ c ∈ jumpers cfg.acceptEqual thr votes, c ∈ clist :=
+        fun c hc => hsub c (jumpers_sub_keys _ _ _ c hc)
+      have hJle : (jumpers cfg.acceptEqual thr votes).length ≤ clist.length :=
+        (List.subperm_of_subset hJn hJs).length_le
+      have hfit : (jumpers cfg.acceptEqual thr votes).length ≤ n := by omega
+      refine ⟨_, openlist_fill cfg votes n clist thr hthr hfit, ?_, ?_, ?_⟩
+      · rw [List.length_append, List.length_take, dedupKeep_of_nodup hl, length_filter_not_mem hl hJn hJs]
+        omega
+      · rw [dedupKeep_of_nodup hl]
+        refine List.nodup_append.mpr ⟨hJn, (hl.filter _).sublist (List.take_sublist _ _), ?_⟩
+        intro a ha b hb hab
+        have := (List.mem_filter.mp (List.mem_of_mem_take hb)).2
+        subst hab
+        simp [ha] at this
+      · intro c hc
+        rcases List.mem_append.mp hc with h | h
+        · exact hJs c h
+        · rw [dedupKeep_of_nodup hl] at h
+          exact (List.mem_filter.mp (List.mem_of_mem_take h)).1
+
+/-- more seats than list members: the whole list is seated, each member once -/
+example : thresholdOpenList { jumpFraction := some (1/2), quota := none, quotaFraction := 1, takeHigher := false, acceptEqual := true, listPrecedence := false } [(2, 5), (1, 3)] 5 [1, 2, 3]
+    = .ok [2, 1, 3] := by decide +kernel
+
 /-- **openlist_order.**  With a jump threshold configured, the seated candidates are: first candidates over the
     threshold, by non-increasing votes; then candidates that did not reach it, all list members, in list order.
     A candidate below the threshold is seated only if every jumper is. -/
